@@ -242,3 +242,113 @@ Example C07_store_example_hyp :
   end.
 Proof. vm_compute. repeat split; try reflexivity. repeat constructor. Qed.
 Print Assumptions C07_store_example_hyp.
+
+(* [ext-C06R] ==== from local updates to whole steps: reversibility and conservation over the LITERAL two-site trace ==== *)
+(* Sched/TDVPGlobal.v, Sched/TDVPGlobalProofs.v; see the block of the same name in Props/C06.v for the contracts
+   (factors_through: an event acts on the abstract state through its (object, signed factor) only, gauge events not at
+   all; good: the states on which the local contract is claimed, for the real class with truncation DISABLED and bonds
+   at full Schmidt rank; act_inverse: on good states the update with factor -s undoes the update with factor s).
+   "A step with -H" = neg_trace tr (every signed factor negated; same object, same paths).  The negated step is run by
+   the schedule checker from the END configuration of the first step (centre on update_path[0]) and ends there again. *)
+From PTN Require Import Sched.TDVPGlobal Sched.TDVPGlobalProofs.
+
+Theorem C07_second_order_reversible :
+  forall (X : Type) (act : obj * Z -> X -> X) (actE : ev -> X -> X) (good : X -> Prop),
+  factors_through act actE ->
+  (forall o f x, good x -> good (act (o, f) x)) ->
+  (forall o f x, good x -> act (o, (- f)%Z) (act (o, f) x) = x) ->
+  forall t, NoDup (ids t) -> 2 <= size t ->
+  exists tr, trace2s t = Some tr /\
+    (exists u l ini s0 s1 s2,
+       update_path t = Some (u :: l) /\ init_trace t = Some ini /\
+       run t (mk_cst u None [] []) ini = Some s0 /\
+       run t s0 tr = Some s1 /\ centre s1 = u /\ pend s1 = None /\
+       run t s1 (neg_trace tr) = Some s2 /\ centre s2 = u /\ pend s2 = None) /\
+    (forall x, good x -> run_trace X actE (neg_trace tr) (run_trace X actE tr x) = x) /\
+    (forall k x, good x -> run_steps X actE k (neg_trace tr) (run_steps X actE k tr x) = x).
+Proof. exact trace2s_reversible_full. Qed.
+Print Assumptions C07_second_order_reversible.
+
+(* non-vacuity: the shear model (non-commuting node updates; contracts hold with good = all states) on the tree of
+   C07_example: the step moves (2, 1), the negated step brings it back *)
+Example C07_reversible_example :
+  factors_through shear_act shear_actE /\
+  (forall o f x, shear_act (o, (- f)%Z) (shear_act (o, f) x) = x) /\
+  option_map (fun tr => (run_trace _ shear_actE tr (2, 1)%Z,
+                         run_trace _ shear_actE (neg_trace tr) (run_trace _ shear_actE tr (2, 1)%Z))) (trace2s C07_ex)
+    = Some ((12, -13)%Z, (2, 1)%Z).
+Proof. split; [exact shear_factors|]. split; [exact shear_inverse|]. vm_compute. reflexivity. Qed.
+Print Assumptions C07_reversible_example.
+
+(* ---- conservation over a whole step and over any number of steps (truncation disabled: the split is exact, so the
+        two-site update and the backward one-site update have the local form of C07_local_update_conserves) ----------- *)
+Theorem C07_step_conserves :
+  forall (X Q : Type) (actE : ev -> X -> X) (q : X -> Q) t tr,
+  trace2s t = Some tr ->
+  (forall e x, In e tr -> q (actE e x) = q x) ->
+  forall k x, q (run_steps X actE k tr x) = q x.
+Proof. intros X Q actE q t tr H. apply (steps_conserve X actE Q q t t tr). right; right; exact H. Qed.
+Print Assumptions C07_step_conserves.
+
+Theorem C07_step_conserves_norm_energy :
+  forall (M : nat -> nat -> Type) (mul : forall a b c : nat, M a b -> M b c -> M a c)
+         (adj : forall a b : nat, M a b -> M b a) (one : forall n : nat, M n n),
+  (forall (a b c d : nat) (x : M a b) (y : M b c) (z : M c d), mul a b d x (mul b c d y z) = mul a c d (mul a b c x y) z) ->
+  (forall (a b : nat) (x : M a b), mul a a b (one a) x = x) ->
+  (forall (a b c : nat) (x : M a b) (y : M b c), adj a c (mul a b c x y) = mul c b a (adj b c y) (adj a b x)) ->
+  forall (D : nat) (H : M D D) (actE : ev -> M D 1 -> M D 1) t tr,
+  trace2s t = Some tr ->
+  (forall e, In e tr ->
+     forall x : M D 1, exists (N : nat) (E : M D N) (U : M N N) (A : M N 1),
+       mul N D N (adj D N E) E = one N /\
+       mul N N N (adj N N U) U = one N /\
+       mul N N N U (mul N D N (adj D N E) (mul D D N H E)) = mul N N N (mul N D N (adj D N E) (mul D D N H E)) U /\
+       x = mul D N 1 E A /\ actE e x = mul D N 1 E (mul N N 1 U A)) ->
+  forall k x,
+    mul 1 D 1 (adj D 1 (run_steps (M D 1) actE k tr x)) (run_steps (M D 1) actE k tr x) = mul 1 D 1 (adj D 1 x) x /\
+    mul 1 D 1 (adj D 1 (run_steps (M D 1) actE k tr x)) (mul D D 1 H (run_steps (M D 1) actE k tr x)) =
+    mul 1 D 1 (adj D 1 x) (mul D D 1 H x).
+Proof.
+  intros M mul adj one A1 A2 A3 D H actE t tr Ht L.
+  apply (steps_conserve_norm_energy M mul adj one A1 A2 A3 D H actE t t tr); [right; right; exact Ht|exact L].
+Qed.
+Print Assumptions C07_step_conserves_norm_energy.
+
+Example C07_conserves_example :
+  (forall e, local_form gM gmul gadj gone 1 (3, 0)%Z gactE e) /\
+  option_map (fun tr => let y := run_steps (gM 1 1) gactE 3 tr (1, 2)%Z in
+                        (y, norm2 gM gmul gadj 1 y, energy gM gmul gadj 1 (3, 0)%Z y)) (trace2s C07_ex)
+    = Some ((-1, -2)%Z, (5, 0)%Z, (15, 0)%Z).
+Proof. split; [exact (g_local_form (3, 0)%Z)|]. vm_compute. reflexivity. Qed.
+Print Assumptions C07_conserves_example.
+(* ---- two nodes: one step is the exact flow over the full time step, for ANY bond dimension --------------------------- *)
+(* flow s = exp(-i H s dt/2), an abstract one-parameter group.  Contract (ASSUMED): the two-site update on the only edge
+   with signed factor f is flow f -- the contracted two-site tensor IS the whole state (E = 1, K = H:
+   C07_two_node_projection), the local propagator is exp(-iHt) and, with truncation disabled, the SVD split is exact
+   whatever the bond dimension before the step.  The literal trace (C07_two_node_trace) has two half steps on the edge
+   and no backward one-site update; they compose to flow 2 = exp(-iH dt), k steps to exp(-iH k dt). *)
+Theorem C07_two_node_exact :
+  forall (X : Type) (act : obj * Z -> X -> X) (actE : ev -> X -> X) (flow : Z -> X -> X),
+  factors_through act actE ->
+  (forall s t x, flow (s + t)%Z x = flow s (flow t x)) -> (forall x, flow 0%Z x = x) ->
+  forall a b, a <> b -> (forall f x, act (mk_edge a b, f) x = flow f x) ->
+  forall x, exists tr, trace2s (RNode a [RNode b []]) = Some tr /\
+    objs tr = [(mk_edge a b, 1); (mk_edge a b, 1)]%Z /\ run_trace X actE tr x = flow 2%Z x /\
+    forall k, run_steps X actE k tr x = flow (2 * Z.of_nat k)%Z x.
+Proof. exact two_node_two_site_exact. Qed.
+Print Assumptions C07_two_node_exact.
+
+Definition C07_flow (s : Z) (x : Z * Z) : Z * Z := (fst x + s * snd x, snd x)%Z.
+Definition C07_flow_act (p : obj * Z) (x : Z * Z) : Z * Z := C07_flow (snd p) x.
+Definition C07_flow_actE (e : ev) (x : Z * Z) : Z * Z := run_objs _ C07_flow_act (obj_of e) x.
+
+Example C07_two_node_example :
+  factors_through C07_flow_act C07_flow_actE /\
+  (forall s t x, C07_flow (s + t)%Z x = C07_flow s (C07_flow t x)) /\ (forall x, C07_flow 0%Z x = x) /\
+  option_map (fun tr => run_steps _ C07_flow_actE 3 tr (1, 1)%Z) (trace2s (RNode 0 [RNode 1 []])) = Some (7, 1)%Z.
+Proof.
+  split; [intros e x; reflexivity|]. split; [intros s t [p q]; unfold C07_flow; cbn [fst snd]; f_equal; ring|].
+  split; [intros [p q]; unfold C07_flow; cbn [fst snd]; f_equal; ring|]. vm_compute; reflexivity.
+Qed.
+Print Assumptions C07_two_node_example.
+(* [/ext-C06R] *)
